@@ -37,7 +37,7 @@ deriving BEq
 
 def parseRes (s : String) : Res :=
   if s == "err" then .err else if s == "panic" then .panic
-  else if s.startsWith "T" then .table (parseTable (s.drop 1).toString) else .other s
+  else if s.startsWith "T" && validTableText (s.drop 1).toString then .table (parseTable (s.drop 1).toString) else .other s
 
 def resOfOutcome : Outcome Table → Res
   | .ok t => .table t
@@ -119,7 +119,7 @@ def judge (f out : List String) : Verdict :=
       let t1 := parseTable o1
       let t2 := parseTable o2
       let cutl := splitNonEmpty cuts ","
-      let shapeOk := rest.length == 3 * cutl.length
+      let shapeOk := rest.length == 3 * cutl.length && validTableText o1 && validTableText o2
       let opsOk := operandOk s1 t1 && operandOk s2 t2
       let inDom := Spec.ValueTables.Compatible t1 t2 && posTotals t1 && posTotals t2 && nonNeg t1 && nonNeg t2
       let ma12 := Res.table (addTable t1 t2)
